@@ -328,4 +328,12 @@ def build(tier, repo):
                    "inconsistent arguments are rejected: the check a message announces exists")
     chk.note_analysed("refusals_checked", crefusal.dead_refusal_rule(r10, c, wrappers))
     r10.require(150)
+    from .. import w7_rules as w7
+    r11 = chk.rule("C17-R11", "the default of ld<X> comes from X itself; every matrix read in a typed arm is tied to the switch subject by an id test; "
+                   "'T' and 'C' choose the same dimensions",
+                   "calls whose types conflict are rejected; the result equals the definition for every accepted flag")
+    chk.note_analysed("ld_defaults", w7.ld_default_rule(r11, c, "blas.c", wrappers))
+    chk.note_analysed("typed_arm_reads", w7.id_agreement_rule(r11, c, "blas.c", wrappers))
+    chk.note_analysed("transpose_conditions", w7.transpose_pair_rule(r11, c, "blas.c", wrappers))
+    r11.require(100)
     return chk
